@@ -26,7 +26,7 @@
      a path to success is the removal of a deletion marker (_delete_marked_files); what runs after
      it (delete_metadata(pid, None), further removals, lock releases) does not see the marker left
      behind: [NI], proved for delete_metadata(pid, None) with the projection lemma of Indep.v.
-   NOT proved here: persistent faults in delete_object / delete_metadata(pid, None). *)
+   Persistent faults in delete_object / delete_metadata(pid, None): FaultPersist.v. *)
 From HS Require Import Base PyVal FS Ops Spec Sched RefineLemmas Refine SeqProps CrashFault Integrity
   CrashGeneral FaultGeneral.
 From HS Require Indep.
